@@ -146,6 +146,7 @@ class CallMixin:
         try:
             item = src.item_at(i)
             c, s2 = cond(item, st)
+            self.binders[-1] = (self.binders[-1][0], z3.And(self.binders[-1][1], c))   # the filter holds wherever the element expression is evaluated
             e = self.ev_pure(node.elt, s2)
         finally:
             self.pop_binder()
@@ -168,6 +169,7 @@ class CallMixin:
         try:
             item = src.item_at(i)
             c, s2 = cond(item, st)
+            self.binders[-1] = (self.binders[-1][0], z3.And(self.binders[-1][1], c))   # the filter holds wherever the element expression is evaluated
             e = self.ev_pure(node.elt, s2)
         finally:
             self.pop_binder()
@@ -214,6 +216,7 @@ class CallMixin:
         try:
             item = src.item_at(i)
             c, s2 = cond(item, st)
+            self.binders[-1] = (self.binders[-1][0], z3.And(self.binders[-1][1], c))   # the filter holds wherever the element expression is evaluated
             k = self.ev_pure(node.key, s2)
             v = self.ev_pure(node.value, s2)
         finally:
@@ -597,6 +600,7 @@ class CallMixin:
             self.push_binder([i], z3.And(0 <= i, i < src.n))
             try:
                 c, s2 = cond(src.item_at(i), st)
+                self.binders[-1] = (self.binders[-1][0], z3.And(self.binders[-1][1], c))   # the filter holds wherever the element expression is evaluated
                 e = self.truthy(self.ev_pure(a0.elt, s2))
             finally:
                 self.pop_binder()
@@ -612,6 +616,7 @@ class CallMixin:
             self.push_binder([i], z3.And(0 <= i, i < src.n))
             try:
                 c, s2 = cond(src.item_at(i), st)
+                self.binders[-1] = (self.binders[-1][0], z3.And(self.binders[-1][1], c))   # the filter holds wherever the element expression is evaluated
                 e = self.ev_pure(a0.elt, s2)
             finally:
                 self.pop_binder()
@@ -1013,6 +1018,12 @@ class CallMixin:
                     raise Unsupported(node, f"missing argument {fname} for {c.short}")
                 env[fname] = d
         line = getattr(node, "lineno", 0)
+        for gname, gsort in c.ghost_params.items():
+            gv = st.env.get("ghostarg_" + gname)
+            if gv is None:
+                d = getattr(c, "ghost_param_defaults", {}).get(gname)
+                gv = self.spec_eval(d, St(dict(env), st.heap, list(st.pc), None, st.ghost)) if d else fresh(gsort, "ghostarg_" + gname)
+            env[gname] = self.coerce(gv, gsort, node)
         for fname in formals:
             a = env[fname]
             if isinstance(a, Val) and isinstance(a.sort, OptSort) and a.sort.inner == c.params[fname]:
